@@ -69,6 +69,10 @@ func c03Gen(class string, seed uint64, tier string) *vfScenario {
 		n := 2 + rng.IntN(5)
 		for i := 0; i < n; i++ {
 			op := c03GenOp(rng, t, P, multi, class == "mixed")
+			if class == "torn" && op.K == "writeat" && op.Off >= c03Refused {
+				// (the same coin: a transfer that is cancelled by a refusal) keep this class's writes in the accepted region
+				op.Off -= c03Refused
+			}
 			if class == "torn" && op.K == "readat" {
 				// with cc.send active a cancelled slicer would flip a coin: keep reads inside the file
 				size := int(sc.Cfg["sizeA"])
@@ -84,6 +88,8 @@ func c03Gen(class string, seed uint64, tier string) *vfScenario {
 	}
 	return sc
 }
+
+const c03Refused = 1 << 20 // writes to the shared file at or beyond this offset are refused by the peer
 
 func c03GenOp(rng *rand.Rand, t, P int, multi, mixed bool) vfOp {
 	p := c03Paths[rng.IntN(len(c03Paths))]
@@ -114,6 +120,14 @@ func c03GenOp(rng *rand.Rand, t, P int, multi, mixed bool) vfOp {
 		return vfOp{K: "readdir", T: t, P: "/dir"}
 	case x < 86:
 		return vfOp{K: "readdirctx", T: t, P: "/dir"}
+	case x < 90:
+		// a write-only file shared by all tasks (slot 2); the peer refuses writes in its upper region, and the
+		// refusal names the offset, so both outcomes are attributable to one request
+		off := int64(rng.IntN(4 * P))
+		if rng.IntN(2) == 0 {
+			off += c03Refused
+		}
+		return vfOp{K: "writeat", T: t, H: 2, Off: off, N: ln(), B: int64(rng.IntN(1 << 20))}
 	case x < 94 || (mixed && x < 97):
 		// the task's own file: slot 10+t, region owned by this op
 		return vfOp{K: "writeat", T: t, H: 10 + t, Off: int64(rng.IntN(2 * P)), N: ln(), B: int64(rng.IntN(1 << 20))}
@@ -163,7 +177,21 @@ func c03Exec(r *vfRun) {
 	}
 	sort.Ints(tids)
 	// setup: shared files and per-task files, opened one after the other
-	setup := []vfOp{{K: "open", P: "/a", H: 0}, {K: "open", P: "/b", H: 1}}
+	setup := []vfOp{{K: "open", P: "/a", H: 0}, {K: "open", P: "/b", H: 1}, {K: "open", P: "/sw", H: 2, A: int64(os.O_WRONLY | os.O_CREATE)}}
+	srv.override = func(rq *ssReq) []byte {
+		q := rq.q
+		if q.Type != wtWrite || q.Offset < c03Refused {
+			return nil
+		}
+		srv.mu.Lock()
+		h := srv.handles[q.Handle]
+		srv.mu.Unlock()
+		if h == nil || h.path != "/sw" {
+			return nil
+		}
+		sim.count("fault.peer.status")
+		return ssStatus(q.ID, wsFailure, fmt.Sprintf("refused@%d", q.Offset)).encode()
+	}
 	for _, t := range tids {
 		setup = append(setup, vfOp{K: "open", P: fmt.Sprintf("/w%d", t), H: 10 + t, A: int64(os.O_RDWR | os.O_CREATE)})
 	}
@@ -335,6 +363,20 @@ func c03Check(srv *vfScriptServer, res *vfOpResult, a, b []byte, own *[]byte, di
 		}
 		return vfCheckReadAt(res, content)
 	case "writeat":
+		if op.H == 2 {
+			// the shared file: accepted below c03Refused, refused (with the request's own offset in the text) above
+			if op.Off >= c03Refused {
+				var se *StatusError
+				if !errors.As(res.Err, &se) || se.msg != fmt.Sprintf("refused@%d", op.Off) || res.N != 0 {
+					return fmt.Sprintf("the peer refused this write with \"refused@%d\"; the call returned n=%d err=%v", op.Off, res.N, res.Err)
+				}
+				return ""
+			}
+			if res.Err != nil || res.N != int64(op.N) {
+				return fmt.Sprintf("the peer accepted every chunk of this write; the call returned n=%d err=%v", res.N, res.Err)
+			}
+			return ""
+		}
 		if res.Err != nil || res.N != int64(op.N) {
 			return fmt.Sprintf("got n=%d err=%v", res.N, res.Err)
 		}
